@@ -155,13 +155,13 @@ func vxModelSet(m []vxLeaf, k vx.W256, v felt.Felt) []vxLeaf {
 }
 
 func VxC01Trie2Operations() {
-	nkeys, nops := 2, 2
+	nkeys, nops := 2, 3
 	height := uint(8)
 	if vx.Thorough() {
 		nkeys, nops, height = 3, 3, 8
 		vx.Bound("height 8; 3 distinct arbitrary keys; 3 operations Update(k_i, v) with v arbitrary or zero (delete); Hash after every operation; symbolic probe. (Width-specific path arithmetic is decided at full 256-bit width by the VxC01BitArray* harnesses; the trie logic itself is height-generic.)")
 	} else {
-		vx.Bound("height 8; 2 distinct arbitrary keys; 2 operations Update(k_i, v) with v arbitrary or zero (delete); Hash after every operation; symbolic probe. (Width-specific path arithmetic is decided at full 256-bit width by the VxC01BitArray* harnesses; the trie logic itself is height-generic.)")
+		vx.Bound("height 8; 2 distinct arbitrary keys; 3 operations Update(k_i, v) with v arbitrary or zero (delete); Hash after every operation; symbolic probe. (Width-specific path arithmetic is decided at full 256-bit width by the VxC01BitArray* harnesses; the trie logic itself is height-generic.)")
 	}
 	// the divergence position (findFirstSetBit) is case-split, so every path length is a constant
 	// and all other bit-array code runs from its real source
